@@ -120,11 +120,101 @@ def build(tier):
                            params={"observation": (lambda ex, st, l, s=inshape: ShT(s, "np")),
                                    "observation_space": (lambda ex, st, l, c=cls, s=sp: Space(c, s))},
                            requires=[], modifies=[], ensures=[f"result == vd_{cls}_{r}_{fname}"], replay="c15:shapes")
+    # ---- element maps on the exact N-d model (B symbolic; channel / class counts concrete)
+    from . import ndt
+    from .ndt import ND
+    for k_, f_ in ndt.LIB.items():
+        P.lib.setdefault(k_, f_)
+    P.trusted.append(ndt.DOC + "; F.one_hot(x, n)[..., j] = 1 iff x = j; numpy.all over a tensor of concrete shape")
+    Re_, I_ = z3.RealSort(), z3.IntSort()
+    OBS = z3.Function("obs_pixel", I_, I_, I_, I_, Re_)
+    LOW = z3.Function("space_low", I_, I_, I_, Re_)
+    HIGH = z3.Function("space_high", I_, I_, I_, Re_)
+    INF = z3.Real("np_inf")
+    P.enums = dict(getattr(P, "enums", {}) or {}, **{"numpy.inf": INF})
+    CH, HH, WW = 2, 2, 1
+
+    class BoxImg:
+        shape = (CH, HH, WW)
+
+        def isinstance(self, ex, st, names):
+            return "Box" in names
+
+        def getattr(self, ex, st, name):
+            if name == "shape":
+                return self.shape
+            if name in ("low", "high"):
+                f = LOW if name == "low" else HIGH
+                return ND([CH, HH, WW], lambda idx: f(z3ify(idx[0]), z3ify(idx[1]), z3ify(idx[2])), name, True)
+            raise Undecided(f"space attribute {name}")
+    c_, h_, w_, b_ = z3.Ints("c!im h!im w!im b!im")
+    finite = z3.And(*[z3.And(LOW(c, h, w) > -INF, HIGH(c, h, w) < INF, LOW(c, h, w) < HIGH(c, h, w))
+                      for c in range(CH) for h in range(HH) for w in range(WW)])           # quantifier-free: prunes the inf-bypass branches
+
+    def img_post(res):
+        if not (isinstance(res, ND) and len(res.shape) == 4 and ndt.same_dim(res.shape[0], B)):
+            return z3.BoolVal(False)
+        unit = z3.And(*[z3.And(HIGH(c, h, w) == 1, LOW(c, h, w) == 0) for c in range(CH) for h in range(HH) for w in range(WW)])
+        out = []
+        for c in range(CH):
+            for h in range(HH):
+                for w in range(WW):
+                    x = OBS(b_, c, h, w)
+                    want = z3.If(unit, x, (x - LOW(c, h, w)) / (HIGH(c, h, w) - LOW(c, h, w)))        # every pixel against ITS OWN bounds
+                    out.append(z3.ForAll([b_], z3.Implies(z3.And(0 <= b_, b_ < B), res.at([b_, z3.IntVal(c), z3.IntVal(h), z3.IntVal(w)]) == want)))
+        return z3.And(*out)
+    P.specns.update(dict(img_post=img_post, finite_bounds=finite, np_inf=INF))
+    for kind, is_np in (("torch", False), ("numpy", True)):
+        P.contract(AU + "apply_image_normalization", variant=f"per-pixel-bounds-{kind}",
+                   params={"observation": (lambda ex, st, l, is_np=is_np: ND([B, CH, HH, WW], lambda idx: OBS(*[z3ify(i) for i in idx]), "image", is_np)),
+                           "observation_space": (lambda ex, st, l: BoxImg())},
+                   requires=["finite_bounds", "np_inf > 0"], frame_fields=False, ensures=["img_post(result)"], replay="c15:values")
+
+    # one-hot encodings through preprocess_observation: Discrete(n) and MultiDiscrete([2, 3])
+    DOBS = z3.Function("discrete_obs", I_, I_, Re_)
+
+    class SpaceK:
+        def __init__(self, cls, **kw):
+            self.cls, self.kw = cls, kw
+
+        def isinstance(self, ex, st, names):
+            return self.cls in names
+
+        def getattr(self, ex, st, name):
+            if name in self.kw:
+                return self.kw[name]
+            raise Undecided(f"space attribute {name}")
+    P.lib[AU + "obs_to_tensor"] = lambda ex, st, a, k: (ND(a[0].shape, a[0].at, a[0].label, False) if isinstance(a[0], ND) else a[0])
+
+    def onehot_post(nvec):
+        def post(res):
+            W_ = sum(nvec)
+            if not (isinstance(res, ND) and len(res.shape) == 2 and ndt.cp(res.shape[1]) == (W_, None)):
+                return z3.BoolVal(False)
+            out, off = [z3ify(res.shape[0]) == B], 0
+            for i, n_ in enumerate(nvec):
+                for j in range(n_):
+                    out.append(z3.ForAll([b_], z3.Implies(z3.And(0 <= b_, b_ < B), z3.simplify(res.at([b_, z3.IntVal(off + j)])) ==
+                                                          z3.If(DOBS(b_, i) == j, z3.RealVal(1), z3.RealVal(0)))))
+                off += n_
+            return z3.And(*out)
+        return post
+    P.specns["onehot_discrete"] = onehot_post([3])
+    P.specns["onehot_multi"] = onehot_post([2, 3])
+    P.contract(AU + "preprocess_observation", variant="Discrete3-batch",
+               params={"observation": (lambda ex, st, l: ND([B], lambda idx: DOBS(z3ify(idx[0]), z3.IntVal(0)), "obs", True)),
+                       "observation_space": (lambda ex, st, l: SpaceK("Discrete", n=3)), "device": (lambda ex, st, l: "cpu"), "normalize_images": (lambda ex, st, l: True)},
+               requires=[], frame_fields=False, ensures=["onehot_discrete(result)"], replay="c15:values")
+    P.contract(AU + "preprocess_observation", variant="MultiDiscrete23-batch",
+               params={"observation": (lambda ex, st, l: ND([B, 2], lambda idx: DOBS(z3ify(idx[0]), z3ify(idx[1])), "obs", True)),
+                       "observation_space": (lambda ex, st, l: SpaceK("MultiDiscrete", nvec=[2, 3], shape=(2,))), "device": (lambda ex, st, l: "cpu"),
+                       "normalize_images": (lambda ex, st, l: True)},
+               requires=[], frame_fields=False, ensures=["onehot_multi(result)"], replay="c15:values")
     P.native.append(dict(name="preprocess_values", adapter="c15:values", bound="Box rank 0-3, Discrete n in 1..4, MultiDiscrete, MultiBinary, Dict/Tuple; "
                          "unbatched / batched / batch-of-one / (step, env) inputs as numpy and torch; value maps and row-wise consistency",
                          payload={"mode": "search"}))
     P.assumptions += ["dimension values are positive integers; ranks 0..3 enumerated, dimension values symbolic"]
-    P.uncovered += ["element maps of preprocess_observation (one-hot, image min-max scaling, Dict/Tuple member-wise) - native adapter, bounded",
+    P.uncovered += ["element maps of Dict/Tuple observations (member-wise recursion) and of MultiBinary - native adapter, bounded",
                     "greedy action / value independence of batch composition (needs row-wise nn forward)",
                     "multi-agent assembly/disassembly of homogeneous agents"]
     return P
